@@ -99,6 +99,11 @@ impl Table {
         })
     }
 
+    /// The partition id this table uses for its block-cache keys.
+    pub(crate) fn verif_cache_partition_id(&self) -> u64 {
+        self.cache_partition_id
+    }
+
     pub(crate) fn verif_get(&self, user_key: &[u8], sequence: u64) -> TableAnswer {
         let key = InternalKey::new_for_seeking(user_key.to_vec(), sequence);
         match self.get(&ReadOptions::default(), &key) {
